@@ -188,6 +188,16 @@ func checkRottenReads(prop string, w *simkit.World, fs cafs.Fs, key cafs.Key, co
 				}
 				w.Probe("read-legitimately-ok")
 			} else {
+				// the failed transfer must not have put altered bytes into the destination either: whatever it wrote
+				// is the stored byte at that offset (never-written ranges read as zeros)
+				if len(mw.b) > len(content) {
+					return Viol(prop, "corrupt-bytes-written", "WriteTo-WriterAt", what, "WriteTo(io.WriterAt) failed (%v) after writing %d bytes into the destination of a %d-byte object; damage: %s", err, len(mw.b), len(content), what)
+				}
+				for i, b := range mw.b {
+					if b != content[i] && b != 0 {
+						return Viol(prop, "corrupt-bytes-written", "WriteTo-WriterAt", what, "WriteTo(io.WriterAt) failed (%v) but had already written altered bytes into the destination (offset %d of %d written, object of %d bytes, leaf %d); damage: %s", err, i, len(mw.b), len(content), L, what)
+					}
+				}
 				w.Probe("detected")
 			}
 		}
@@ -368,8 +378,12 @@ func runC03Download(rc *RunCtx) *simkit.Violation {
 	if v := createRepo(prop, d, up, "r1"); v != nil {
 		return v
 	}
-	leaf := uint32(t.Pick(64, 100, 1024, 4096))
-	tree := drawTree(t, t.Range(1, 5), leaf, "")
+	leaf := uint32(t.Pick(64, 100, 1024, 4096, 4096, 65536))
+	nFiles := t.Range(1, 5)
+	if leaf == 65536 {
+		nFiles = t.Range(1, 2) // (single-leaf files larger than io.Copy's 32 KiB buffer)
+	}
+	tree := drawTree(t, nFiles, leaf, "")
 	src := memDisk()
 	_ = writeTree(src, tree)
 	_, ufn := d.upload(up, d.Stores(up), "r1", src, uploadOpts{leaf: leaf, concUp: t.Pick(1, 4, 20), message: "m"})
@@ -409,6 +423,22 @@ func runC03Download(rc *RunCtx) *simkit.Violation {
 	}
 	data, _ := splitMeta(got)
 	if pt.Err != nil {
+		// a failed download must not have written altered bytes: every file it left holds, at each offset, the
+		// uploaded byte (or the zero of a range it never wrote)
+		for p, g := range data {
+			orig, ok := tree[p]
+			if !ok {
+				return Viol(prop, "corrupt-bytes-written", "Publish", p, "the failed download (%v) left a file %q that is not part of the bundle", pt.Err, p)
+			}
+			if len(g) > len(orig) {
+				return Viol(prop, "corrupt-bytes-written", "Publish", p, "the failed download (%v) left %d bytes in %q, the uploaded file has %d; damage to %q: %s", pt.Err, len(g), p, len(orig), victim, m.desc)
+			}
+			for i, b := range g {
+				if b != orig[i] && b != 0 {
+					return Viol(prop, "corrupt-bytes-written", "Publish", p, "the download failed (%v) but had already written altered bytes into %q (offset %d of %d written, file of %d bytes, leaf %d); damage to %q: %s", pt.Err, p, i, len(g), len(orig), leaf, victim, m.desc)
+				}
+			}
+		}
 		w.Probe("download-failed")
 		return nil
 	}
